@@ -11,8 +11,9 @@ package main
 //     reaches, and (one level, own body only) the fx-core keeper methods it calls through the keeper interfaces: index
 //     and slice expressions, unchecked type assertions, divisions, explicit panics / Must*, writes to maps that are not
 //     made locally, sdkmath Int64/Uint64 narrowing, integer conversions (recorded, they wrap), every use of a
-//     pointer-typed field of the decoded arguments, `sdkmath.NewIntFromBigInt(x)` (panics above 256 bits) and
-//     `sdk.NewCoin(_, NewIntFromBigInt(x))` (panics on a negative amount).  Each site carries either the local guard that
+//     pointer-typed field of the decoded arguments, `sdkmath.NewIntFromBigInt(x)` (panics above 256 bits),
+//     `sdk.NewCoin(_, NewIntFromBigInt(x))` (panics on a negative amount) and `sdk.NewCoins` of more than one coin
+//     (panics on duplicate denominations).  Each site carries either the local guard that
 //     dominates it or the REQUIREMENT on the decoded arguments that makes it safe (`lenLe Tokens Amounts`, `nonNil TxID`,
 //     `sumFits256 Amount Fee`, …); requirements on a function parameter are instantiated at every call site (one level of
 //     substitution, locals resolved through their single definition).  Lean then decides, over these regenerated tables,
@@ -85,6 +86,7 @@ type c20RunSite struct {
 	Pkg, Recv, Meth, Kind, Expr, ArgsType, Req, Guard string
 	Guarded                                          bool
 	Line                                             int
+	Doms                                             []string // conditions of the early returns that dominate the site
 }
 
 type c20x struct {
@@ -265,8 +267,12 @@ func extractC20Run(repo, out string) error {
 		if s.Req != "" {
 			req = "some (" + s.Req + ")"
 		}
-		fmt.Fprintf(&sb, "  { pkg := %s, recv := %s, meth := %s, line := %d, kind := %s, expr := %s, argsType := %s, req := %s, guarded := %v, guard := %s }%s\n",
-			lq(s.Pkg), lq(s.Recv), lq(s.Meth), s.Line, lq(s.Kind), lq(s.Expr), lq(s.ArgsType), req, s.Guarded, lq(s.Guard), sep)
+		var ds []string
+		for _, d := range s.Doms {
+			ds = append(ds, lq(d))
+		}
+		fmt.Fprintf(&sb, "  { pkg := %s, recv := %s, meth := %s, line := %d, kind := %s, expr := %s, argsType := %s, req := %s, guarded := %v, guard := %s, doms := [%s] }%s\n",
+			lq(s.Pkg), lq(s.Recv), lq(s.Meth), s.Line, lq(s.Kind), lq(s.Expr), lq(s.ArgsType), req, s.Guarded, lq(s.Guard), strings.Join(ds, ", "), sep)
 	}
 	sb.WriteString("]\n\n")
 	sort.Strings(x.unknowns)
@@ -875,7 +881,40 @@ func (s *c20Scan) add(n ast.Node, kind, expr, req string, guarded bool, guard st
 		at = s.m.ArgsType
 	}
 	s.x.sites = append(s.x.sites, c20RunSite{Pkg: s.x.rel(s.p), Recv: recv, Meth: s.fd.Name.Name, Kind: kind, Expr: expr, ArgsType: at, Req: req,
-		Guarded: guarded, Guard: guard, Line: s.p.Fset.Position(n.Pos()).Line})
+		Guarded: guarded, Guard: guard, Line: s.p.Fset.Position(n.Pos()).Line, Doms: s.doms(n)})
+}
+
+// doms: source text of the conditions of every `if cond { …return/continue/panic }` (no else) that precedes the site in an
+// enclosing block, and (prefixed "in: ") of every enclosing `if cond {` whose body contains the site; duplicates removed
+func (s *c20Scan) doms(site ast.Node) []string {
+	var out []string
+	seen := map[string]bool{}
+	put := func(t string) {
+		if !seen[t] {
+			seen[t] = true
+			out = append(out, t)
+		}
+	}
+	child := site
+	for par := s.parents[site]; par != nil; child, par = par, s.parents[par] {
+		switch n := par.(type) {
+		case *ast.IfStmt:
+			if n.Body == child {
+				put("in: " + s.src(n.Cond))
+			}
+		case *ast.BlockStmt:
+			for _, st := range n.List {
+				if st == child {
+					break
+				}
+				if is, ok := st.(*ast.IfStmt); ok && is.Else == nil && blockReturns(is.Body) {
+					put(s.src(is.Cond))
+				}
+			}
+		}
+	}
+	sort.Strings(out)
+	return out
 }
 
 // argField: `args.F` where args is the decoded-arguments variable of Run
@@ -1373,6 +1412,10 @@ func (s *c20Scan) call(e *ast.CallExpr) {
 			s.require(e, "signGe0", "newcoin", s.src(e), inner)
 		}
 	}
+	// sdk.NewCoins(a, b, …) / sdk.NewCoins(xs...): sorts, then panics on duplicate denominations and invalid coins
+	if strings.HasSuffix(fun, ".NewCoins") && (e.Ellipsis.IsValid() || len(e.Args) > 1) {
+		s.add(e, "newcoins", s.src(e), "", false, "")
+	}
 	// call-graph edges
 	var callee *types.Func
 	switch f := e.Fun.(type) {
@@ -1404,6 +1447,16 @@ func (s *c20Scan) call(e *ast.CallExpr) {
 			s.x.scanFunc(s.m, t, 1, s.visited)
 		default:
 			continue // keeper methods: own body only
+		}
+		// a callee (other package, own body only) that contains an explicit panic / Must*: the call site is listed with the
+		// early returns that dominate it, so that a review argument can pin the check it relies on
+		if !samePkg {
+			tfd, tp := s.x.declOf[t], s.x.pkgOf[t]
+			for _, cs := range s.x.sites {
+				if !cs.Guarded && (cs.Kind == "panic" || cs.Kind == "must") && cs.Pkg == s.x.rel(tp) && cs.Meth == tfd.Name.Name && cs.Recv == recvTypeName(tfd) {
+					s.add(e, "callpanic", s.src(e), "", false, "callee "+cs.Pkg+"."+cs.Meth+": "+cs.Expr)
+				}
+			}
 		}
 		// instantiate the callee's parameter requirements at this call site
 		sum := s.x.summaries[t]
